@@ -612,6 +612,263 @@ pub fn run(ctx: &Ctx) {
     let _ = Stats::new();
 }
 
-pub fn replay(_ctx: &Ctx, _sub: &str, _input: &serde_json::Value) -> Result<(), Fail> {
+// ------------------------------------------------------------------------------------------------
+// generated databases, built outside the catalogued failure classes: every failure is a violation
+// ------------------------------------------------------------------------------------------------
+use crate::gen::sig::{OptS, TcpSigS, TtlS, WinS};
+use proptest::prelude::*;
+
+const GEN_LAYOUTS: [&[OptS]; 5] = [
+    &[OptS::Mss],
+    &[OptS::Mss, OptS::Nop, OptS::Ws],
+    &[OptS::Mss, OptS::Sok, OptS::Ts, OptS::Nop, OptS::Ws],
+    &[OptS::Mss, OptS::Nop, OptS::Nop, OptS::Sok],
+    &[OptS::Mss, OptS::Nop, OptS::Ws, OptS::Nop, OptS::Nop, OptS::Ts],
+];
+/// quirk lists in the order the analyzer emits them (IP header, TCP header, options)
+/// ... and the same sets in other orders (p0f reads the quirk field as a set)
+const GEN_QUIRKS: [&[u8]; 10] = [&[], &[0, 1], &[0], &[2], &[0, 1, 11], &[3, 0, 1], &[1, 0], &[11, 1, 0], &[0, 1, 3], &[0, 11, 1]];
+
+pub fn gen_sig() -> impl Strategy<Value = TcpSigS> {
+    (
+        prop_oneof![Just(4u8), Just(6u8), Just(0u8)],
+        prop_oneof![Just(64u8), Just(128u8), Just(255u8), Just(32u8)],
+        proptest::option::weighted(0.4, prop_oneof![Just(1460u16), Just(1380u16), Just(536u16)]),
+        prop_oneof![
+            2 => Just(WinS::Any),
+            2 => (1u8..60).prop_map(WinS::Mss),
+            1 => (1u8..30).prop_map(WinS::Mtu),
+            2 => (1000u16..60000).prop_map(|v| WinS::Value(v | 1)),
+            1 => prop_oneof![Just(256u16), Just(512u16), Just(1024u16), Just(2048u16), Just(4096u16)].prop_map(WinS::Mod),
+        ],
+        proptest::option::weighted(0.5, 0u8..=14),
+        0usize..5,
+        0usize..10,
+        0u8..3,
+    )
+        .prop_map(|(ver, ittl, mss, wsize, wscale, l, q, pclass)| {
+            let olayout = GEN_LAYOUTS[l].to_vec();
+            let has_ws = olayout.contains(&OptS::Ws);
+            // quirk lists that only make sense for IPv4 are kept for `*` / 4 signatures; ecn works for both
+            let mut quirks = GEN_QUIRKS[q].to_vec();
+            if ver == 6 {
+                quirks.retain(|x| ![0u8, 1, 2, 4].contains(x));
+            }
+            TcpSigS { ver, ittl: TtlS::Value(ittl), olen: 0, mss, wsize, wscale: if has_ws { wscale } else { None }, olayout, quirks, pclass }
+        })
+}
+
+/// the single form the window of an instance can be expressed in, or None when several divisors apply
+/// (p0f's own detect_win_multi answers such windows by a fixed priority, so they conform to one of the forms only)
+fn unambiguous_form(win: u16, mss: Option<u16>, has_ts: bool, v4: bool) -> Option<String> {
+    let acc = crate::model::tcp::window_acceptable(win, mss, has_ts, v4);
+    if acc.len() == 1 {
+        acc.into_iter().next()
+    } else {
+        None
+    }
+}
+
+#[derive(Clone, Debug, serde::Serialize, serde::Deserialize, Hash)]
+pub struct GenDb {
+    pub labels: Vec<Vec<TcpSigS>>,
+    pub response: bool,
+}
+
+pub fn check_generated(c: &GenDb, st: &mut Stats) -> Result<(), Fail> {
+    use huginn_net_db::db::FingerprintCollection;
+    use huginn_net_db::{Database, Label, Type};
+    let entries: Vec<(Label, Vec<dt::Signature>)> = c.labels.iter().enumerate().map(|(i, sigs)| (Label { ty: Type::Specified, class: Some("unix".into()), name: format!("OS{i}"), flavor: Some(format!("f{i}")) }, sigs.iter().map(|s| s.db()).collect())).collect();
+    // the other table holds the same signatures under other labels: a lookup in the wrong table shows
+    let other: Vec<(Label, Vec<dt::Signature>)> = entries.iter().map(|(l, s)| (Label { name: format!("WRONG-TABLE-{}", l.name), ..l.clone() }, s.clone())).collect();
+    let (rq, rs) = if c.response { (other, entries.clone()) } else { (entries.clone(), other) };
+    let db = Database { classes: vec![], mtu: vec![], ua_os: vec![], tcp_request: FingerprintCollection::new(rq), tcp_response: FingerprintCollection::new(rs), http_request: Default::default(), http_response: Default::default() };
+    let matcher = huginn_net_tcp::SignatureMatcher::new(&db);
+    for (li, (_lab, sigs)) in entries.iter().enumerate() {
+        for (si, sig) in sigs.iter().enumerate() {
+            for inst in tcp_instances(sig, c.response) {
+                // steer away from the catalogued class: the window must be observed in the signature's own form
+                let has_ts = sig.olayout.contains(&dt::TcpOption::TS);
+                let form = unambiguous_form(inst.window, inst.mss, has_ts, inst.v4);
+                let sig_form = format!("{}", sig.wsize);
+                if sig_form != "*" && form.as_deref() != Some(sig_form.as_str()) {
+                    st.class("steered-away:window-expressible-in-another-form");
+                    continue;
+                }
+                if !tcp_conforms(&inst, sig) {
+                    return Err(fail!("harness:generated-instance-does-not-conform", "{} class {}", sig, inst.class));
+                }
+                st.evals += 1;
+                st.nontrivial(&(c, li, si, &inst.class));
+                let f = tcp_frame(&inst, c.response);
+                let mut tracker = ttl_cache::TtlCache::new(4);
+                drive::set_clock(Some(1_000_000));
+                use huginn_net_tcp::packet_parser::{parse_packet, IpPacket};
+                let res = match parse_packet(&f) {
+                    IpPacket::Ipv4(ip) => huginn_net_tcp::process_ipv4_packet(&ip, &mut tracker, Some(&matcher)),
+                    IpPacket::Ipv6(ip) => huginn_net_tcp::process_ipv6_packet(&ip, &mut tracker, Some(&matcher)),
+                    IpPacket::None => return Err(fail!("generated:frame-not-decoded", "{}", crate::engine::hex(&f))),
+                };
+                let mut observed = String::new();
+                let got: Option<String> = match res {
+                    Ok(r) => {
+                        observed = if c.response { r.syn_ack.as_ref().map(|x| x.sig.to_string()) } else { r.syn.as_ref().map(|x| x.sig.to_string()) }.unwrap_or_default();
+                        let m = if c.response { r.syn_ack.as_ref().map(|x| &x.os_matched) } else { r.syn.as_ref().map(|x| &x.os_matched) };
+                        m.and_then(|m| m.os.as_ref().map(|o| o.name.clone()))
+                    }
+                    Err(_) => None,
+                };
+                let mut acceptable: BTreeSet<String> = BTreeSet::new();
+                acceptable.insert(format!("OS{li}"));
+                'outer: for (l2, (_lb, sg)) in entries.iter().enumerate() {
+                    for (s2, g) in sg.iter().enumerate() {
+                        if l2 == li && s2 == si {
+                            break 'outer;
+                        }
+                        if tcp_conforms(&inst, g) {
+                            acceptable.insert(format!("OS{l2}"));
+                        }
+                    }
+                }
+                if !got.as_ref().map(|g| acceptable.contains(g)).unwrap_or(false) {
+                    return Err(fail!("generated-database:signature-not-reached", "label #{li} sig #{si} `{}` class {}: observed `{}`, best match {:?}, acceptable {:?}", sig, inst.class, observed, got, acceptable));
+                }
+            }
+        }
+    }
+    Ok(())
+}
+
+pub fn run_generated(ctx: &Ctx) {
+    let n = ctx.tier.pick(6_000, 150_000);
+    ctx.run_prop(
+        "generated-tcp-databases",
+        "proptest TCP databases in the p0f format (1..12 labels x 1..3 signatures: version 4/6/*, initial TTL 32/64/128/255, MSS fixed or `*`, every window form, window scale fixed or `*`, 5 option layouts without eol, 6 quirk lists in emission order, payload class) built OUTSIDE the catalogued failure classes; every signature x every instantiation class as a real SYN / SYN+ACK through the TCP analyzer with that database; instances whose window would be observed in another form are steered away (counted); any other miss is a violation; non-trivial: every instance",
+        n,
+        || (proptest::collection::vec(proptest::collection::vec(gen_sig(), 1..4), 1..12), any::<bool>()).prop_map(|(labels, response)| GenDb { labels, response }),
+        |c: &GenDb, st: &mut Stats| {
+            st.evals = st.evals.saturating_sub(1);
+            st.sample(|| json!({"labels": c.labels.len(), "first": format!("{}", c.labels[0][0].db())}));
+            check_generated(c, st)
+        },
+    );
+}
+
+// ---- generated HTTP databases -------------------------------------------------------------------
+use crate::gen::sig::{HdrS, HttpSigS};
+
+#[derive(Clone, Debug, serde::Serialize, serde::Deserialize, Hash)]
+pub struct GenHttpDb {
+    /// signatures with pairwise different decisive version (1.0 / 1.1) or a single any-version one
+    pub sigs: Vec<HttpSigS>,
+    pub request: bool,
+}
+
+const REQ_POOL: [&str; 10] = ["Host", "User-Agent", "Accept", "Accept-Language", "Accept-Encoding", "Connection", "Keep-Alive", "X-Requested-With", "Cookie", "Referer"];
+const RSP_POOL: [&str; 9] = ["Server", "Date", "Content-Type", "Connection", "Keep-Alive", "Accept-Ranges", "X-Powered-By", "Content-Length", "ETag"];
+const NO_VALUE: [&str; 5] = ["Host", "User-Agent", "Server", "Date", "Content-Type"];
+
+fn gen_http_sig(request: bool, version: u8) -> impl Strategy<Value = HttpSigS> {
+    let pool: Vec<&'static str> = if request { REQ_POOL.to_vec() } else { RSP_POOL.to_vec() };
+    let n = pool.len();
+    (Just(pool).prop_shuffle(), 1usize..7, proptest::collection::vec((0u8..4, 0u8..10), n), 0usize..3, 0u8..3).prop_map(move |(names, k, flags, nabs, sw)| {
+        let swh = if request { "User-Agent" } else { "Server" };
+        let k = k.min(names.len());
+        let has_sw = names[..k].contains(&swh);
+        let expsw = if has_sw { ["", "Firefox/", "nginx"][sw as usize].to_string() } else { String::new() };
+        let horder: Vec<HdrS> = names[..k]
+            .iter()
+            .zip(flags.iter())
+            .map(|(nm, (o, v))| HdrS {
+                optional: *o == 0 && !(*nm == swh && !expsw.is_empty()),
+                name: nm.to_string(),
+                value: if *v < 3 && !NO_VALUE.contains(nm) { Some(["keep-alive", "gzip", "en"][*v as usize].to_string()) } else { None },
+            })
+            .collect();
+        let habsent: Vec<HdrS> = names[k..].iter().take(nabs).map(|nm| HdrS { optional: false, name: nm.to_string(), value: None }).collect();
+        HttpSigS { version, horder, habsent, expsw }
+    })
+}
+
+pub fn check_generated_http(c: &GenHttpDb, st: &mut Stats) -> Result<(), Fail> {
+    use huginn_net_db::db::FingerprintCollection;
+    use huginn_net_db::{Database, Label, Type};
+    let mk = |prefix: &str| -> Vec<(Label, Vec<dh::Signature>)> { c.sigs.iter().enumerate().map(|(i, s)| (Label { ty: Type::Specified, class: None, name: format!("{prefix}{i}"), flavor: None }, vec![s.db()])).collect() };
+    let own = mk("SW");
+    let other = mk("WRONG-TABLE-");
+    let (rq, rs) = if c.request { (own.clone(), other) } else { (other, own.clone()) };
+    let db = Database { classes: vec![], mtu: vec![], ua_os: vec![], tcp_request: Default::default(), tcp_response: Default::default(), http_request: FingerprintCollection::new(rq), http_response: FingerprintCollection::new(rs) };
+    for (i, (_l, sigs)) in own.iter().enumerate() {
+        let sig = &sigs[0];
+        for inst in http_instances(sig, c.request) {
+            if !inst.class.contains("sw-exact") {
+                st.class("steered-away:software-string-embedded (K-C12-expsw)");
+                continue;
+            }
+            // an instance another entry of this database also describes is outside the sub-check (versions are disjoint by construction)
+            if own.iter().enumerate().any(|(j, (_, g))| j != i && http_conforms(&inst, &g[0], c.request)) {
+                return Err(fail!("harness:generated-http-signatures-overlap", "{}", sig));
+            }
+            st.evals += 1;
+            st.nontrivial(&(c, i, &inst.class));
+            let msg = http_message(&inst, c.request);
+            let mut hs = HttpState::new(8);
+            let cip = Ip::V4(Ip4 { src: [10, 9, 8, 7], dst: [10, 9, 8, 6], ..Ip4::default() });
+            let sip = Ip::V4(Ip4 { src: [10, 9, 8, 6], dst: [10, 9, 8, 7], ..Ip4::default() });
+            let _ = hs.feed_db(&frame(Link::Ether, &cip, &Tcp { sport: 41000, dport: 80, seq: 10, flags: fr::SYN, ..Tcp::default() }), Some(&db));
+            let pkt = if c.request { frame(Link::Ether, &cip, &Tcp { sport: 41000, dport: 80, seq: 11, ack: 1, flags: fr::ACK | fr::PSH, payload: msg.clone(), ..Tcp::default() }) } else { frame(Link::Ether, &sip, &Tcp { sport: 80, dport: 41000, seq: 500, ack: 11, flags: fr::ACK | fr::PSH, payload: msg.clone(), ..Tcp::default() }) };
+            let (got, observed): (Option<String>, String) = match hs.feed_db(&pkt, Some(&db)) {
+                Ok(r) => {
+                    if c.request {
+                        (r.http_request.as_ref().and_then(|q| q.browser_matched.browser.as_ref().map(|b| b.name.clone())), r.http_request.as_ref().map(|q| q.sig.to_string()).unwrap_or_default())
+                    } else {
+                        (r.http_response.as_ref().and_then(|q| q.web_server_matched.web_server.as_ref().map(|b| b.name.clone())), r.http_response.as_ref().map(|q| q.sig.to_string()).unwrap_or_default())
+                    }
+                }
+                Err(e) => (None, e),
+            };
+            if got.as_deref() != Some(format!("SW{i}").as_str()) {
+                return Err(fail!("generated-http-database:signature-not-reached", "sig #{i} `{}` class {}: message {:?} observed `{}` best match {:?}", sig, inst.class, String::from_utf8_lossy(&msg), observed, got));
+            }
+        }
+    }
+    Ok(())
+}
+
+pub fn run_generated_http(ctx: &Ctx) {
+    let n = ctx.tier.pick(30_000, 600_000);
+    ctx.run_prop(
+        "generated-http-databases",
+        "proptest HTTP databases in the p0f format: either one any-version signature or a 1.0 and a 1.1 signature (decisively different, so no entry shadows another), request or response table, the other table holding the same signatures under other labels; 1..6 ordered headers from a 10 / 9 name pool with optional marks and value fragments, 0..2 absent headers, software token or none; every instantiation class (version, optional headers in / out, values exact / embedded, software string exact) as a real message through the HTTP analyzer with that database; best match must be the signature's own label; the embedded-software class is steered away (K-C12-expsw, counted); non-trivial: every instance",
+        n,
+        || {
+            any::<bool>().prop_flat_map(|request| {
+                prop_oneof![
+                    gen_http_sig(request, 9).prop_map(|s| vec![s]),
+                    (gen_http_sig(request, 0), gen_http_sig(request, 1)).prop_map(|(a, b)| vec![a, b]),
+                    (gen_http_sig(request, 1), gen_http_sig(request, 0)).prop_map(|(a, b)| vec![a, b]),
+                ]
+                .prop_map(move |sigs| GenHttpDb { sigs, request })
+            })
+        },
+        |c: &GenHttpDb, st: &mut Stats| {
+            st.evals = st.evals.saturating_sub(1);
+            st.sample(|| json!({"request": c.request, "first": format!("{}", c.sigs[0].db())}));
+            check_generated_http(c, st)
+        },
+    );
+}
+
+pub fn replay(_ctx: &Ctx, sub: &str, input: &serde_json::Value) -> Result<(), Fail> {
+    if sub == "generated-http-databases" {
+        let c: GenHttpDb = serde_json::from_value(input["value"].clone()).map_err(|e| fail!("bad-replay", "{e}"))?;
+        let mut st = Stats::new();
+        return check_generated_http(&c, &mut st);
+    }
+    if sub == "generated-tcp-databases" {
+        let c: GenDb = serde_json::from_value(input["value"].clone()).map_err(|e| fail!("bad-replay", "{e}"))?;
+        let mut st = Stats::new();
+        return check_generated(&c, &mut st);
+    }
     Err(fail!("bad-replay", "C13 enumerates the bundled signatures deterministically: re-run the check; the failing (line, class) is in the VIOLATION detail"))
 }
